@@ -57,6 +57,9 @@ def run(name):
     try:
         rc, out = sh(["git", "-C", REPO, "apply", patch])
         if rc != 0:
+            rc, out = sh(["git", "-C", REPO, "apply", "--3way", patch])
+            res["applied_with_3way"] = rc == 0
+        if rc != 0:
             res["error"] = "patch does not apply: " + out[-300:]
             return res
         rcb, outb = sh("go build ./... && go build -tags verif ./... && go test -vet=off -count=1 ./...", cwd=REPO, timeout=1800)
@@ -77,7 +80,7 @@ def run(name):
                 pass
             res["checks"][p] = {"result": kind, "replay": detail}
     finally:
-        sh(["git", "-C", REPO, "checkout", "--", "."])
+        sh(["git", "-C", REPO, "reset", "-q", "--hard"])
         sh(["git", "-C", REPO, "clean", "-fdq", "--", "."])
     json.dump(res, open(os.path.join(d, "result.json"), "w"), indent=1)
     return res
